@@ -60,6 +60,39 @@ theorem C11_junk_invisible_partial (ctx : Ctx) (fuel : Nat) (j : Xml) (hj : isJu
   | error e => rfl
   | ok o => simp only; exact C11_junk_node ctx fuel j hj origin ig depth od anc us o hd
 
+/-- inside a `text` element: everything that is not a span, link, reference or text path —
+    comments, character data (kept as text nodes, not elements), foreign and unknown elements, and
+    known elements such as `rect`, `g` or a nested `text` -/
+def isTextJunk (x : Xml) : Prop :=
+  match tagName? x with
+  | none => True
+  | some t0 => (let t1 := if t0 == "a" then "tspan" else t0; !(t1 == "tspan" || t1 == "tref" || t1 == "textPath")) = true
+
+/-- **Junk inside a text element is invisible**: it adds no element, whatever its own content, at any
+    position among the children of the `text` (or of a span) — e.g. `<text>a<rect><tspan/></rect>b</text>`
+    has no span. -/
+theorem C11_text_junk_invisible (fuel : Nat) (n : Nat) (ns : Bool) (name : String) (attrs : List XAttr)
+    (j : Xml) (hj : isTextJunk j) (cs₁ cs₂ : List Xml) (ut : Bool) (depth od : Nat)
+    (anc : List (List Attr)) (out : Out) (hd : depth ≤ Generated.depthLimit) :
+    buildText (fuel + 1) (.elem n ns name attrs (cs₁ ++ j :: cs₂)) ut depth od anc out
+      = buildText (fuel + 1) (.elem n ns name attrs (cs₁ ++ cs₂)) ut depth od anc out := by
+  rw [buildText, buildText]
+  simp only [Xml.children]
+  rw [List.foldl_append, List.foldl_append, List.foldl_cons]
+  congr 1
+  cases h : List.foldl _ (Except.ok out) cs₁ with
+  | error e => rfl
+  | ok o =>
+    simp only
+    have hnd : ¬ depth > Generated.depthLimit := by omega
+    simp only [hnd, if_false]
+    unfold isTextJunk at hj
+    cases ht : tagName? j with
+    | none => rfl
+    | some t0 =>
+      simp only [ht] at hj
+      simp only [hj, if_true]
+
 /-- **Unknown and foreign attributes never reach the tree** (any position in the attribute list). -/
 theorem C11_junk_attr_invisible (tag : String) (anc : List (List Attr)) (ig : Bool) (as₁ as₂ : List XAttr)
     (a : XAttr) (ha : a.1 = "other" ∨ isKnownAttr a.2.1 = false) :
